@@ -118,6 +118,12 @@ def run_case(case, ctx):
         ri, _ = om.wasserstein_ref(Si.astype(float).tolist(), Ti.astype(float).tolist())
         vi, _ = call_warn(ctx, persim.wasserstein, Si, Ti)
         check_value(ctx, "value-int-dtype", vi, ri, 1e3 * float(kk), "%s arrays x %d" % (np.dtype(dt), kk), Si.tolist(), Ti.tolist())
+    # Mx3 input whose extra column is CONSTANT (the documented behaviour counts extra columns in the
+    # point-to-point cost, so only a constant annotation column leaves every pairing cost unchanged)
+    if S and T:
+        S3c, T3c = np.hstack([farr(S), np.full((len(S), 1), 4.5)]), np.hstack([farr(T), np.full((len(T), 1), 4.5)])
+        vx, _ = call_warn(ctx, persim.wasserstein, S3c, T3c)
+        check_value(ctx, "value-extra-columns", vx, ref, 1.0, "Mx3 arrays with a constant annotation column", S, T)
     if not S or not T:
         ve, _ = call_warn(ctx, persim.wasserstein, np.array(S, dtype=float), np.array(T, dtype=float))
         check_value(ctx, "value-container", ve, ref, 1.0, "np.array([]) for the empty diagram", S, T)
